@@ -86,6 +86,11 @@ def generate(rng, tier, index):
     iterative = thorough and rng.random() < 0.25 and fam in ("default", "kissgp")
     if iterative:
         recipe["n"] = max(recipe["n"], 6)
+    # low-rank regime: CG solves and a Lanczos root truncated at 3 of n = 10..14 (what large data sets run into at
+    # the default max_root_decomposition_size): the LOVE caches are genuinely approximate
+    lowrank = (not iterative) and fam == "default" and not recipe.get("batch") and rng.random() < 0.15
+    if lowrank:
+        recipe["n"] = rng.randint(10, 14)
     # swarm: which op kinds are enabled in this run and with what weight
     kinds = {
         "predict": 6.0,
@@ -163,7 +168,17 @@ def generate(rng, tier, index):
     if ops[-1]["op"] != "predict":
         ops.append(gen_predict(rng, recipe, iterative, allow, p_each))
     core.sticky_bundles(rng, ops)
-    return {"recipe": recipe, "ops": ops, "header": {"faulty": faulty, "iterative": iterative}}
+    if lowrank:
+        # a LOVE prediction first (so that low-rank caches exist), an exact one right after it
+        p1, p2 = gen_predict(rng, recipe, False, allow, p_each), gen_predict(rng, recipe, False, allow, p_each)
+        p1["bundle"] = [b for b in p1["bundle"] if b[0] not in ("fast_pred_var", "skip_posterior_variances")] + [["fast_pred_var", {"state": True, "num_probe_vectors": 2}]]
+        p2["bundle"] = [b for b in p2["bundle"] if b[0] not in ("fast_pred_var", "fast_pred_samples", "skip_posterior_variances")]
+        ops[0:0] = [p1, p2]
+        extra = [["max_cholesky_size", {"value": 0}], ["eval_cg_tolerance", {"value": 1e-10}], ["cg_tolerance", {"value": 1e-10}], ["max_cg_iterations", {"value": 2000}], ["max_root_decomposition_size", {"value": 3}], ["max_lanczos_quadrature_iterations", {"value": 200}]]
+        for o in ops:
+            if "bundle" in o:
+                o["bundle"] = [b for b in o["bundle"] if b[0] not in ("max_cholesky_size", "fast_computations", "max_root_decomposition_size")] + extra
+    return {"recipe": recipe, "ops": ops, "header": {"faulty": faulty, "iterative": iterative, "lowrank": lowrank}}
 
 
 def gen_op(rng, k, recipe, iterative, allow, p_each):
@@ -382,7 +397,17 @@ def observe_and_compare(ctx, i, op, through_lik=False, opname="predict"):
     else:
         out.log.add("obs%d:exc" % i, rm[1])
     if rm[0] == "ok" and rf[0] == "ok":
-        bad, mx = compare.compare_obs(rm[1], rf[1], tol)
+        oa, ob = rm[1], rf[1]
+        if ctx.h.get("header", {}).get("lowrank"):
+            out.stats["probe:lowrank_regime"] += 1
+            if bundles.has(b, "fast_pred_var", state=True) or bundles.has(b, "fast_pred_samples", state=True):
+                # a truncated Lanczos root depends on its random start vector: the cached one (drawn under the seed of an
+                # earlier call) and the fresh model's are two legitimate approximations - only the mean is comparable
+                oa = {q: v for q, v in oa.items() if q.startswith("mean")}
+                ob = {q: v for q, v in ob.items() if q.startswith("mean")}
+            else:
+                out.stats["probe:lowrank_exact_prediction_compared"] += 1
+        bad, mx = compare.compare_obs(oa, ob, tol)
         if not bad:
             out.note_diff("tol=%g" % tol, mx)
         if bad:
